@@ -49,7 +49,7 @@ def _run_target(args):
         from pyvc.overload import Unsupported as OUnsupported
         from pyvc.hoare import Unsupported as HUnsupported
         tb = traceback.extract_tb(ex.__traceback__)
-        in_real_code = bool(tb) and tb[-1].filename.startswith("<") and isinstance(ex, (NameError, AttributeError, TypeError, KeyError, IndexError, ValueError))
+        in_real_code = bool(tb) and tb[-1].filename.startswith("<") and isinstance(ex, (NameError, AttributeError, TypeError, KeyError, IndexError, ValueError, ZeroDivisionError))
         if isinstance(ex, (Unsupported, OUnsupported, HUnsupported, LookupError, NotImplementedError)) and not isinstance(ex, (KeyError, IndexError)):
             # the code under contract uses a construct the VC generator has no rule for: undecided, not a crash
             sess.unsupported(f"{type(ex).__name__}: {ex}")
